@@ -58,8 +58,38 @@ fn oracle(s: &ProgScene<X>, t: &Trace) -> Vec<Violation> {
         }
     }
     let term = an.task_end(0);
-    let failed_start = an.enters.iter().filter(|e| e.a == 0 && e.cb == Cb::Started).count() > an.exits.iter().filter(|e| e.a == 0 && e.cb == Cb::Started).count()
-        || s.roles[0].started.iter().any(|b| *b != StartBeh::Ok) && term.is_some();
+    let beh = |n: u16| s.roles[0].started.get(n as usize).copied().unwrap_or(StartBeh::Ok);
+    // start-ups that began and never came to their end
+    let open_starts: Vec<u16> = an.enters.iter().filter(|e| e.a == 0 && e.cb == Cb::Started && !an.exits.iter().any(|x| x.a == 0 && x.cb == Cb::Started && x.inc == e.inc)).map(|e| e.inc).collect();
+    let failed_start = open_starts.iter().any(|n| beh(*n) != StartBeh::Ok) || s.roles[0].started.iter().any(|b| *b != StartBeh::Ok) && term.is_some();
+    // (a0) the hooks of a restart run to their end: a started() that neither fails nor panics is
+    // not cut short, whatever it takes (the handler timeout is about handlers), and neither is the
+    // stopped() before it
+    if t.res.end == crate::vexec::EndReason::Quiescent || term.is_some() {
+        for n in &open_starts {
+            if beh(*n) == StartBeh::Ok {
+                out.push(Violation {
+                    clause: "restart-hooks-run-to-their-end",
+                    key: format!("C07/started-cut-short/strategy={sk}"),
+                    detail: format!("started() of incarnation {n} was entered and never returned although it neither fails nor panics; actor task end={term:?}"),
+                });
+            }
+        }
+        if !s.roles[0].stopped_panic {
+            for e in an.enters.iter().filter(|e| e.a == 0 && e.cb == Cb::Stopped) {
+                if !an.exits.iter().any(|x| x.a == 0 && x.cb == Cb::Stopped && x.inc == e.inc) {
+                    out.push(Violation {
+                        clause: "restart-hooks-run-to-their-end",
+                        key: format!("C07/stopped-cut-short/strategy={sk}"),
+                        detail: format!("stopped() of incarnation {} was entered and never returned; actor task end={term:?}", e.inc),
+                    });
+                }
+            }
+        }
+    }
+    for _ in an.exits.iter().filter(|e| e.a == 0 && e.cb == Cb::Started && e.inc > 0) {
+        crate::check::oblige("restart-hooks-run-to-their-end");
+    }
 
     // (b) incarnation bounds for every handled message
     for (c, cs) in s.clients.iter().enumerate() {
@@ -493,12 +523,22 @@ fn make_case(progs: &[Vec<R>], strat: Strat, mailbox: Mailbox, start_err_at: Opt
         role.started.push(StartBeh::Err);
     }
     role.started_actions = started_timers.to_vec();
+    // a handler timeout is configured and the hooks of a restart take longer than it: the limit is
+    // about handlers, a restart still goes through
+    let slow_hooks = SLOW_HOOKS.with(|s| s.get());
+    if let Some((_, mode)) = slow_hooks {
+        (role.started_sleep, role.stopped_sleep) = match mode {
+            0 => (2, 2),
+            1 => (4, 0),
+            _ => (0, 4),
+        };
+    }
     // timers the old incarnation registers in its stopped() hook belong to it as well
     role.stopped_actions = STOPPED_TIMERS.with(|t| t.borrow().clone());
     let timers = !started_timers.is_empty() || !role.stopped_actions.is_empty() || progs.iter().flatten().any(|r| matches!(r, R::CmdTimer(_)));
     let desc = format!(
         "restart{} strategy={:?} mailbox={} start_err_at={:?} started_timers={:?} progs={}",
-        if role.stopped_actions.is_empty() { String::new() } else { format!(" [registered in stopped(): {:?}]", role.stopped_actions) },
+        if let Some((f, m)) = slow_hooks { format!(" [timeout 3 fail={f}, started()/stopped() take {}]", ["2/2", "4/0", "0/4"][m as usize]) } else if role.stopped_actions.is_empty() { String::new() } else { format!(" [registered in stopped(): {:?}]", role.stopped_actions) },
         strat,
         mailbox.name(),
         start_err_at,
@@ -510,13 +550,18 @@ fn make_case(progs: &[Vec<R>], strat: Strat, mailbox: Mailbox, start_err_at: Opt
         exec: ExecCfg { horizon, ..ExecCfg::default() },
         bound,
         scene: Box::new(ProgScene { variant: crate::progscene::current_variant(),
-            attach: crate::progscene::Attach::None, spawn: SpawnCfg { mailbox, strat, timeout: None },
+            attach: crate::progscene::Attach::None, spawn: SpawnCfg { mailbox, strat, timeout: slow_hooks.map(|(f, _)| (3, f)) },
             roles: vec![role],
             clients,
             extra: X { strat, timers, horizon },
             oracle,
         }),
     }
+}
+
+thread_local! {
+    /// Some(fail_on_timeout): a handler timeout of 3 ticks and lifecycle hooks of 2 ticks each
+    static SLOW_HOOKS: std::cell::Cell<Option<(bool, u8)>> = const { std::cell::Cell::new(None) };
 }
 
 thread_local! {
@@ -605,6 +650,21 @@ fn cases(tier: Tier) -> Vec<Case> {
                 }
             }
         }
+    }
+    // restarts of an actor with a handler timeout whose hooks together outlast it
+    for (fail, mode) in [(false, 0), (true, 0), (false, 1), (true, 2)] {
+        SLOW_HOOKS.with(|s| s.set(Some((fail, mode))));
+        for &strat in &[Strat::Default, Strat::Recreate] {
+            for &mb in &[Mailbox::U, Mailbox::B(1)] {
+                for p in [vec![R::Call, R::Restart, R::Call], vec![R::Send, R::CmdRestart, R::Call, R::Restart, R::Call]] {
+                    let mut c = make_case(&[p], strat, mb, None, &[], 30, None);
+                    // (handlers are instant: the timeout's select! never has both arms ready)
+                    c.exec.select_choice = false;
+                    v.push(c);
+                }
+            }
+        }
+        SLOW_HOOKS.with(|s| s.set(None));
     }
     // the actor subscribes itself to a broker topic in started(); restarted once or twice, then a
     // publication (which it makes itself, on command)
